@@ -80,3 +80,121 @@ func FuzzC10TTHDecode(f *testing.F) {
 		}
 	})
 }
+
+// ---- history fuzzing: bytes are decoded into a reader / writer history by a small data provider ----
+
+type dataProvider struct {
+	b []byte
+	i int
+}
+
+func (d *dataProvider) byte() byte {
+	if d.i >= len(d.b) {
+		return 0
+	}
+	x := d.b[d.i]
+	d.i++
+	return x
+}
+
+func (d *dataProvider) size() int {
+	k := d.byte()
+	switch k >> 5 {
+	case 0:
+		return int(k & 31)
+	case 1:
+		return readerSizes[int(k&31)%len(readerSizes)]
+	case 2:
+		return 4096 + int(k&31) - 16
+	case 3:
+		return 8192 + int(k&31) - 16
+	case 4:
+		return int(k&31) * 700
+	case 5:
+		return int(k&31) * 2300
+	default:
+		return int(d.byte())<<8 | int(d.byte())
+	}
+}
+
+func FuzzC04ReaderHistory(f *testing.F) {
+	f.Add([]byte{1, 0x30, 0x10, 0, 0x25, 1, 0x45, 4, 0x00})
+	f.Add([]byte{0, 0x11, 0x12, 3, 0xc0, 0x20, 0x00, 2, 0x60, 0, 0x27, 4, 0})
+	f.Add([]byte{7, 0xff, 0xff, 0, 0x65, 0, 0x66, 1, 0xa5, 4, 0, 0, 0xc1, 0x10, 0x00})
+	f.Fuzz(func(t *testing.T, data []byte) {
+		if len(data) > 400 {
+			return
+		}
+		d := &dataProvider{b: data}
+		cfg := d.byte()
+		c := ReaderCase{}
+		c.Total = (int(d.byte())<<8 | int(d.byte())) * int(1+cfg>>6)
+		if cfg&1 == 1 {
+			c.Bytes = true
+			if c.Total > 70000 {
+				c.Total = 70000
+			}
+			c.Cap = c.Total + int(cfg>>1&3)*977
+			if cfg&8 != 0 {
+				c.Cap = nextPow2(c.Total)
+			}
+		} else {
+			c.Plan = faultio.Plan{Chunks: []int{d.size() % 9000, d.size() % 5000}, Zeros: []int{int(cfg >> 1 & 3), 0}, ErrAt: -1, WithData: cfg&8 != 0, ErrKind: int(cfg >> 4 & 3)}
+			if cfg&0x20 != 0 && c.Total > 0 {
+				c.Plan.ErrAt = d.size() % (c.Total + 1)
+			}
+		}
+		kinds := []string{"next", "peek", "skip", "readbin", "release", "next"}
+		for d.i < len(d.b) && len(c.Ops) < 60 {
+			k := kinds[int(d.byte())%len(kinds)]
+			n := 0
+			if k != "release" {
+				n = d.size()
+			}
+			c.Ops = append(c.Ops, ROp{K: k, N: n})
+		}
+		if v := runReaderHistory(&c, &cov{}, true, nil); v != nil {
+			t.Fatalf("VIOLATION-CASE c04_reader_history: %s\ncase: %+v\n%s", v.Msg, c, v.Stack)
+		}
+	})
+}
+
+func FuzzC05WriterHistory(f *testing.F) {
+	f.Add([]byte{0, 0, 0x25, 1, 0x45, 4, 2, 0x62, 4})
+	f.Add([]byte{1, 0x40, 1, 0x21, 0, 0x45, 3, 4, 0, 0x03, 4})
+	f.Add([]byte{6, 0, 0xa3, 1, 0x30, 2, 0xa5, 4, 0, 0x01, 4, 4})
+	f.Fuzz(func(t *testing.T, data []byte) {
+		if len(data) > 300 {
+			return
+		}
+		d := &dataProvider{b: data}
+		cfg := d.byte()
+		c := WriterCase{}
+		if cfg&1 == 1 {
+			c.Bytes = true
+			c.NilInit = cfg&2 != 0
+			if !c.NilInit {
+				c.InitLen = d.size() % 6000
+				c.InitCap = c.InitLen + int(cfg>>2&3)*1500
+				if cfg&0x10 != 0 {
+					c.InitCap = nextPow2(c.InitLen + 1)
+				}
+			}
+		} else {
+			c.FailAt = int(cfg >> 1 & 7)
+			c.Short = int(cfg>>4&1) * 3
+		}
+		kinds := []string{"malloc", "lazy", "writebin", "fill", "flush", "len", "malloc", "writebin"}
+		for d.i < len(d.b) && len(c.Ops) < 50 {
+			k := kinds[int(d.byte())%len(kinds)]
+			n := 0
+			if k == "malloc" || k == "lazy" || k == "writebin" {
+				n = d.size() % 50000
+			}
+			c.Ops = append(c.Ops, WOp{K: k, N: n})
+		}
+		if v := runWriterHistory(&c, &cov{}, nil); v != nil {
+			t.Fatalf("VIOLATION-CASE c05_writer_history: %s\ncase: %+v\n%s", v.Msg, c, v.Stack)
+		}
+	})
+}
